@@ -1,0 +1,141 @@
+/*
+ * Cadence - The resource-oriented smart contract programming language
+ *
+ * Copyright Flow Foundation
+ *
+ * Licensed under the Apache License, Version 2.0 (the "License");
+ * you may not use this file except in compliance with the License.
+ * You may obtain a copy of the License at
+ *
+ *   http://www.apache.org/licenses/LICENSE-2.0
+ *
+ * Unless required by applicable law or agreed to in writing, software
+ * distributed under the License is distributed on an "AS IS" BASIS,
+ * WITHOUT WARRANTIES OR CONDITIONS OF ANY KIND, either express or implied.
+ * See the License for the specific language governing permissions and
+ * limitations under the License.
+ */
+
+package runtime_test
+
+import (
+	"encoding/hex"
+	"fmt"
+	"testing"
+
+	"github.com/stretchr/testify/assert"
+	"github.com/stretchr/testify/require"
+
+	"github.com/onflow/cadence"
+	"github.com/onflow/cadence/common"
+	. "github.com/onflow/cadence/runtime"
+	. "github.com/onflow/cadence/test_utils/runtime_utils"
+)
+
+func TestRuntimeContractAddAndRemoveInSameTransaction(t *testing.T) {
+
+	t.Parallel()
+
+	address := common.MustBytesToAddress([]byte{0x1})
+
+	const contract = `
+      access(all) contract Test {
+          access(all) var values: [String]
+          access(all) var more: {Int: [Int]}
+
+          init() {
+              self.values = ["a", "b"]
+              self.more = {1: [1, 2, 3]}
+          }
+      }
+    `
+
+	rt := NewTestRuntime()
+
+	accountCodes := map[Location][]byte{}
+	var events []cadence.Event
+
+	runtimeInterface := &TestRuntimeInterface{
+		Storage: NewTestLedger(nil, nil),
+		OnGetCode: func(location Location) ([]byte, error) {
+			return accountCodes[location], nil
+		},
+		OnGetSigningAccounts: func() ([]Address, error) {
+			return []Address{address}, nil
+		},
+		OnResolveLocation: NewSingleIdentifierLocationResolver(t),
+		OnGetAccountContractCode: func(location common.AddressLocation) ([]byte, error) {
+			return accountCodes[location], nil
+		},
+		OnUpdateAccountContractCode: func(location common.AddressLocation, code []byte) error {
+			accountCodes[location] = code
+			return nil
+		},
+		OnRemoveAccountContractCode: func(location common.AddressLocation) error {
+			delete(accountCodes, location)
+			return nil
+		},
+		OnEmitEvent: func(event cadence.Event) error {
+			events = append(events, event)
+			return nil
+		},
+	}
+
+	nextTransactionLocation := NewTransactionLocationGenerator()
+
+	// Add the contract, and remove it again in the same transaction.
+	// The contract value created for the addition is never stored,
+	// and must not stay in storage as an unreferenced slab
+	// (the test runtime checks the storage health after each commit).
+
+	err := rt.ExecuteTransaction(
+		Script{
+			Source: []byte(fmt.Sprintf(
+				`
+                  transaction {
+                      prepare(signer: auth(Contracts) &Account) {
+                          signer.contracts.add(name: "Test", code: "%s".decodeHex())
+                          signer.contracts.remove(name: "Test")
+                      }
+                  }
+                `,
+				hex.EncodeToString([]byte(contract)),
+			)),
+		},
+		Context{
+			Interface: runtimeInterface,
+			Location:  nextTransactionLocation(),
+			UseVM:     *compile,
+		},
+	)
+	require.NoError(t, err)
+
+	assert.Empty(t, accountCodes)
+	require.Len(t, events, 2)
+
+	// The contract does not exist afterwards, and can be added
+
+	err = rt.ExecuteTransaction(
+		Script{
+			Source: []byte(fmt.Sprintf(
+				`
+                  transaction {
+                      prepare(signer: auth(Contracts) &Account) {
+                          assert(signer.contracts.get(name: "Test") == nil)
+                          signer.contracts.add(name: "Test", code: "%s".decodeHex())
+                      }
+                  }
+                `,
+				hex.EncodeToString([]byte(contract)),
+			)),
+		},
+		Context{
+			Interface: runtimeInterface,
+			Location:  nextTransactionLocation(),
+			UseVM:     *compile,
+		},
+	)
+	require.NoError(t, err)
+
+	assert.Len(t, accountCodes, 1)
+}
